@@ -87,11 +87,11 @@ impl TryFrom<BdlBlock> for WallCons {
             .zip(thickness.iter())
             .map(|(name, thickness)| {
                 if name.starts_with("Cámara de aire ") {
-                    match &name[name.len() - 5..] {
-                        " 1 cm" => 0.01,
-                        " 2 cm" => 0.02,
-                        " 5 cm" => 0.05,
-                        "10 cm" => 0.10,
+                    match name {
+                        n if n.ends_with(" 1 cm") => 0.01,
+                        n if n.ends_with(" 2 cm") => 0.02,
+                        n if n.ends_with(" 5 cm") => 0.05,
+                        n if n.ends_with("10 cm") => 0.10,
                         _ => *thickness,
                     }
                 } else {
